@@ -243,10 +243,13 @@ fn u_ctx_read()
 #[kani::stub(std::fs::remove_file, stub_remove_file)]
 #[kani::stub(std::fs::rename, stub_rename)]
 #[kani::stub(std::path::Path::join, stub_path_join)]
+#[kani::stub(std::path::Path::exists, stub_exists)]
 #[kani::stub(std::alloc::dealloc, stub_dealloc)]
 fn u_ctx_write()
 {
     log::set_max_level(log::LevelFilter::Off);
+    // whether a lock file is already there (only matters to code that asks)
+    unsafe { EXISTS = kani::any() };
     let ctx = Context {
         config: any_config(),
         cached_next_reference_id: if kani::any() { Some(kani::any()) } else { None },
